@@ -18,7 +18,9 @@ REQUIRED_THEOREMS = ['clock24', 'clock24_partial', 'clock24_hour0_unresolved', '
                      'clock12_partial', 'ambiguous_two_readings', 'date_at_time', 'date_at_time_unambiguous',
                      'date_at_time_ambiguous', 'toPm_twelve_apart', 'short_time_shape', 'clock_cultures',
                      'date_at_time_cultures', 'designator_cultures', 'afternoon_12_both_readings', 'afternoon_12_repaired',
-                     'clock24_zh', 'zh_ampm_any_hour_witness', 'zh_1913_guarded', 'zh_designator_examples']
+                     'clock24_zh', 'zh_ampm_any_hour_witness', 'zh_1913_guarded', 'zh_designator_examples',
+                     'date_at_designator', 'date_at_designator_cultures', 'date_word_shift', 'night_alone_is_2am',
+                     'night_attached_shift']
 RULE = ('unit: DateTimeFormatUtil over full ranges (luis_time/short_time 24x60x{none,0..59}, luis_date, format_*, '
         'to_pm, all_str_to_pm); match_to_time on every match of AtRegex/TimeRegex1..11/ConnectNumRegex over generated '
         'English time strings (digits x minutes x seconds x am/pm spellings x prefixes x suffixes x written forms); '
@@ -478,6 +480,13 @@ DATE_EXPRS = ['march 5, 2019', '2019-03-05', '3/5/2019', 'february 29th 2020', '
               'next monday', 'dec 31 2089', '1/1/1950', 'may 5', 'on friday']
 
 
+def merge_variant(T):
+    """'0' when merge_date_and_time shifts an hour the time parser already resolved ('tomorrow at 2 in the night' ->
+    T14, finding night-attached-shift), '1' when the shift is applied to ambiguous times only."""
+    r = T.datetime_parser().merge_date_and_time('tomorrow at 2 in the night', ref_dt(REFS[1]))
+    return '0' if (r.success and r.timex.endswith('T14')) else '1'
+
+
 def unit_merge(ctx, T, variant):
     """merge_date_and_time: record the two sub-parse results the real function obtains, feed them to the model."""
     dtp = T.datetime_parser()
@@ -499,7 +508,11 @@ def unit_merge(ctx, T, variant):
         return r
 
     times = ['7', '7:30', '12:00', '0:30', '00:15', '13:45:10', '5 pm', '12 am', '12:30 pm', '11:59:59 p.m.', '24:00',
-             '7 in the morning', '7 in the evening', "7 o'clock", 'noon', 'midnight', 'half past 3']
+             '7 in the morning', '7 in the evening', "7 o'clock", 'noon', 'midnight', 'half past 3', '2 in the night',
+             '12 in the night', '1 at night', '11 at night', '10 in the morning', '12 in the morning', '3 in the afternoon',
+             '12 in the afternoon', '11 at lunchtime', '14:00 in the morning']
+    mv = merge_variant(T)
+    ctx.extra['merge_word_shift_variant'] = 'only for an ambiguous time' if mv == '1' else 'always (as found)'
     lines, impl, meta = [], [], []
     dp.parse, tp.parse = rec_d, rec_t
     try:
@@ -525,7 +538,7 @@ def unit_merge(ctx, T, variant):
                              dtres.dt_field(dv.past_value) if dv else '1,1,1,0,0,0',
                              dtres.b(t['ok']), cps(t['timex']), cps(t['comment']),
                              dtres.dt_field(t['future']) if t['ok'] else '1,1,1,0,0,0', dtres.b(pm), dtres.b(am)]
-                        lines.append('\t'.join(['dt.merge'] + f))
+                        lines.append('\t'.join(['dt.merge', mv] + f))
                         impl.append(a)
                         meta.append((src, ref))
     finally:
@@ -697,7 +710,19 @@ def pipeline(ctx, variant):
         for d in spec.get('dates', []):
             for ref in wrefs:
                 pre.append((culture, d, ref))
+    npre = len(pre)
+    for culture, spec in words.items():
+        if not culture.startswith('_'):
+            for w in spec.get('resolved_times', []):
+                pre.append((culture, w, wrefs[0]))
     pre_res = dtres.run_queries(pre) if pre else []
+    time_alone = {}
+    for (culture, w, ref), rr in list(zip(pre, pre_res))[npre:]:
+        if (not isinstance(rr, str) and len(rr) == 1 and rr[0][3] == 'datetimeV2.time' and rr[0][5] is not None
+                and len(rr[0][5]['values']) == 1 and rr[0][0] == 0 and rr[0][1] == len(w) - 1):
+            v = rr[0][5]['values'][0]
+            time_alone[(culture, w)] = (v['timex'], v['value'])
+    pre, pre_res = pre[:npre], pre_res[:npre]
     date_alone = {}
     for (culture, d, ref), rr in zip(pre, pre_res):
         if (not isinstance(rr, str) and len(rr) == 1 and rr[0][3] == 'datetimeV2.date' and rr[0][0] == 0
@@ -720,6 +745,11 @@ def pipeline(ctx, variant):
                     for form in spec.get('forms', []):
                         add('word-attached:' + culture, form.format(d=d, w=w), ref, 'datetime',
                             [(tx + 'T%02d' % hh, val + ' %02d:00:00' % hh) for tx, val in dv], '%s', culture)
+                for w in spec.get('resolved_times', []):
+                    if (culture, w) in time_alone:
+                        ttx, tval = time_alone[(culture, w)]
+                        add('time-kept-after-date:' + culture, '%s at %s' % (d, w), ref, 'datetime',
+                            [(tx + ttx, val + ' ' + tval) for tx, val in dv], '%s', culture)
                 for w, hh, mm in spec.get('designators', []):
                     for form in spec.get('designator_forms', []):
                         tpart = 'T%02d' % hh + (':%02d' % mm if ':' in w else '')
@@ -762,6 +792,9 @@ def pipeline(ctx, variant):
                    and len(got) == 2 and got[0] == expected[0])
         sig = ('hour0-unresolved' if hour0 else 'afternoon-12' if noon12 else 'zh-ampm-any-hour' if zh_ampm
                else 'clock-%s' % family)
+        if family.startswith('time-kept-after-date'):
+            # finding night-attached-shift: the PM word `night` shifts an hour the time parser had resolved to am
+            sig = 'night-attached-shift' if 'night' in q else 'time-kept-after-date-%s' % culture
         if family.startswith('word-attached'):
             import re as _re
             # stable signatures of the word-time findings of the unchanged tree
